@@ -304,6 +304,7 @@ func TestC12_Replay(t *testing.T) {
 	h.RunReplay(t, "C12", checkC12)
 	h.RunReplay(t, "C12.twin", checkC12Twin)
 	h.RunReplay(t, "C12.enc", checkC12Enc)
+	h.RunReplay(t, "C12.stored", checkC12Stored)
 }
 
 // TestC12_Grid: the exact boundary for every limit and entry point, plus the default limit and a bomb.
@@ -467,4 +468,84 @@ func TestC12_PEncBomb(t *testing.T) {
 		}
 		return C12Enc{Limit: rapid.SampledFrom([]int64{64, 1024, 8 * 1024, 64 * 1024}).Draw(t, "limit"), Size: size, Alg: rapid.SampledFrom(h.DataAlgs).Draw(t, "alg"), Level: rapid.IntRange(1, 9).Draw(t, "level")}
 	}, checkC12Enc)
+}
+
+// ---- hand-made DEFLATE encodings: every valid encoding of a message must be treated like the message ----
+
+type C12Stored struct {
+	Kind   string `json:"kind"`
+	Size   int    `json:"size"`   // the valid message is padded (trailing comment) to this size
+	Blocks []int  `json:"blocks"` // stored-block lengths (the rest goes into further maximal blocks)
+	Pads   []int  `json:"pads"`   // ignored header bits per block
+	Limit  int64  `json:"limit"`
+	Family string `json:"family"`
+}
+
+func genC12Stored(t *rapid.T) C12Stored {
+	c := C12Stored{Kind: rapid.SampledFrom([]string{"response", "LogoutRequest", "LogoutResponse"}).Draw(t, "kind"), Limit: rapid.SampledFrom([]int64{0, 0, 128 * 1024}).Draw(t, "limit")}
+	c.Family = rapid.SampledFrom([]string{"random", "random", "xmlish-header"}).Draw(t, "family")
+	c.Size = rapid.IntRange(len(c12BaseXML(c.Kind))+7, 70000).Draw(t, "size")
+	nb := rapid.IntRange(1, 6).Draw(t, "nBlocks")
+	for i := 0; i < nb; i++ {
+		c.Blocks = append(c.Blocks, rapid.OneOf(rapid.IntRange(0, 40), rapid.IntRange(1, 65535)).Draw(t, "blockLen"))
+		c.Pads = append(c.Pads, rapid.IntRange(0, 31).Draw(t, "pad"))
+	}
+	if c.Family == "xmlish-header" {
+		// first block: header byte printable ASCII, LEN / NLEN bytes that read as text (two ASCII characters and
+		// one two-byte UTF-8 sequence) — the compressed bytes then BEGIN like character data
+		c.Size = rapid.IntRange(33000, 70000).Draw(t, "sizeLarge")
+		lo := rapid.IntRange(0x20, 0x3f).Draw(t, "lenLo")
+		hi := rapid.IntRange(0x40, 0x7f).Draw(t, "lenHi")
+		if l := hi<<8 | lo; l < c.Size {
+			c.Blocks[0] = l
+		}
+		c.Pads[0] = rapid.IntRange(4, 15).Draw(t, "padPrintable")
+	}
+	return c
+}
+
+func checkC12Stored(c C12Stored) h.Outcome {
+	o := h.Outcome{NonTrivial: true, Classes: []string{"stored:" + c.Family, "kind:" + c.Kind, fmt.Sprintf("blocks:%d", len(c.Blocks))}}
+	raw := padTo(c12BaseXML(c.Kind), int64(c.Size))
+	if raw == nil {
+		raw = c12BaseXML(c.Kind)
+	}
+	comp := h.DeflateStored(raw, c.Blocks, c.Pads)
+	if back, err := rawInflate(comp); err != nil || !bytes.Equal(back, raw) {
+		o.Violation = h.V("harness/stored-encoder", "hand-made stream does not inflate to the message: %v", err)
+		return o
+	}
+	rawIn, compIn := base64.StdEncoding.EncodeToString(raw), base64.StdEncoding.EncodeToString(comp)
+	spc := h.BaseSP()
+	spc.MaxSize = c.Limit
+	for _, e := range c12Entries {
+		r1, e1 := e.f(spc.Build(), rawIn)
+		r2, e2 := e.f(spc.Build(), compIn)
+		a, b := classify(r1, e1), classify(r2, e2)
+		if a.Class != b.Class {
+			o.Violation = h.V("not-transparent/"+e.name, "%s: raw => %s (%v), hand-made stored-block encoding => %s (%v)", e.name, a.Class, e1, b.Class, e2)
+			return o
+		}
+		if a.Class == "accepted" && !reflect.DeepEqual(a.Data, b.Data) {
+			o.Violation = h.V("not-transparent-data/"+e.name, "%s: raw and stored-block presentations return different data", e.name)
+			return o
+		}
+		if a.Class == "accepted" {
+			o.Classes = append(o.Classes, "accepted:"+e.name)
+		}
+	}
+	return o
+}
+
+func TestC12_PStored(t *testing.T) { h.RunProp(t, "C12.stored", genC12Stored, checkC12Stored) }
+
+// TestC12_GridStored: every printable header byte x a spread of "textual" LEN values.
+func TestC12_GridStored(t *testing.T) {
+	var cases []C12Stored
+	for pad := 4; pad <= 15; pad++ {
+		for _, l := range []int{0x4020, 0x4a2f, 0x5533, 0x7f3f, 0x6021} {
+			cases = append(cases, C12Stored{Kind: []string{"response", "LogoutResponse", "LogoutRequest"}[pad%3], Size: 40000, Blocks: []int{l, 900}, Pads: []int{pad, 0, 3}, Family: "xmlish-header"})
+		}
+	}
+	h.RunCases(t, "C12.stored", cases, checkC12Stored)
 }
